@@ -9,7 +9,7 @@ From Coq Require Import List NArith Arith Bool.
 Import ListNotations.
 
 (* A response path.  Keys and list indices are encoded injectively as numbers
-   by the harness (key number j -> 2j, list index i -> 2i+1). *)
+   by the harness (list index i -> i, response key number j -> 1000 + j). *)
 Definition path := list N.
 
 Inductive stage := SQ | SP | SV | SE.   (* query, parsing, validation, execution *)
